@@ -80,6 +80,28 @@ func (header *Header) Validate(ctx context.Context, opts ...ValidationOption) er
 		if err := schema.Validate(ctx); err != nil {
 			return fmt.Errorf("header schema is invalid: %w", err)
 		}
+		if header.Example != nil && header.Examples != nil {
+			return errors.New("header example and examples are mutually exclusive")
+		}
+		if vo := getValidationOptions(ctx); !vo.examplesValidationDisabled {
+			if example := header.Example; example != nil {
+				if err := validateExampleValue(ctx, example, schema.Value); err != nil {
+					return fmt.Errorf("invalid example: %w", err)
+				}
+			}
+			for _, k := range componentNames(header.Examples) {
+				v := header.Examples[k]
+				if err := v.Validate(ctx); err != nil {
+					return fmt.Errorf("%s: %w", k, err)
+				}
+				if v.Value.ExternalValue != "" {
+					continue // the value lives elsewhere: there is nothing to validate here
+				}
+				if err := validateExampleValue(ctx, v.Value.Value, schema.Value); err != nil {
+					return fmt.Errorf("%s: %w", k, err)
+				}
+			}
+		}
 	}
 
 	if content := header.Content; content != nil {
